@@ -229,8 +229,10 @@ def run_case(case):
                             if rng.random() < 0.5 else ['*']
                         proc = ProcessStatus('app', f'p{p}', prules, sv)
                         known = [i for i in idents if rng.random() < 0.85] or [local]
+                        # stopped-like in any way: never started, exited, fatal (a restart after a crash or a loss)
+                        first_state = rng.choice([0, 0, 100, 200])
                         for ident in known:
-                            proc.add_info(ident, payload(f'p{p}', 'app', 0, 100.0 + rnd))
+                            proc.add_info(ident, payload(f'p{p}', 'app', first_state, 100.0 + rnd))
                         app.add_process(proc)
                         procs[f'app:p{p}'] = (proc, prules.expected_load, list(prules.identifiers), known)
                     # one more process, outside the start sequence, without load, with its own identifiers rule: it
@@ -293,6 +295,16 @@ def run_case(case):
                             problems.append(f'{ns} sent to {ident} which is not RUNNING')
                         if ident not in known:
                             problems.append(f'{ns} sent to {ident} whose Supervisor does not know it')
+                    # loads include the starts already requested: nothing has been acknowledged in this run, so the load
+                    # of every request counts on the node of its target
+                    asked = {}
+                    for ns, ident in targets.items():
+                        asked[node_of[ident]] = asked.get(node_of[ident], 0) + procs[ns][1]
+                    counters['node_capacity_checks'] = counters.get('node_capacity_checks', 0) + len(asked)
+                    for node, load_asked in asked.items():
+                        if node_load[node] + load_asked > 100:
+                            problems.append(f'node overloaded ({node}) by the requests of this run: {node_load[node]} '
+                                            f'running + {load_asked} requested > 100')
                     if distribution == 'ALL_INSTANCES':
                         for ns, ident in targets.items():
                             proc, pload, pids, known = procs[ns]
